@@ -24,7 +24,7 @@ TEXT = {
     },
     'C11': {
         'text': 'Partial: the fixed-key AES seed stream offset logic, for every 64-bit block counter and boundary in-block offsets, bounded in read length; Prng::into_new_field stream continuity.',
-        'note': 'NOT decided: rejection sampling and buffer refill in Prng::get, absorb order of the hash-based XOF constructors, Field255 sampling.',
+        'note': 'Rejection sampling and buffer refill in Prng::get are decided in the thorough tier only (bounded: 16/20-byte look-ahead buffers). NOT decided: absorb order of the hash-based XOF constructors, Field255 sampling.',
         'technique': 'function contract on the real fill() with the block hash uninterpreted (Kani/CBMC)',
         'design_ref': 'DESIGN.md §4 C11',
     },
